@@ -59,7 +59,7 @@ type c04Cfg struct {
 func c04Configs(tier string) []c04Cfg {
 	maxL := 4
 	if tier == "thorough" {
-		maxL = 5
+		maxL = 6
 	}
 	var out []c04Cfg
 	for si := range c04Sets {
@@ -316,7 +316,7 @@ func (c04) Describe(tier string) fw.Description {
 	return fw.Description{
 		Level: "model_checking",
 		Rule: "bounded-exhaustive enumeration on the real engine (deterministic schedule): 15 tuple alphabets (0..3 grouping columns; strings with '|', ',', unit separator, the NULL marker text, empty string; numbers; NULL; missing; upper(k)) x 4 window kinds (tumbling event-time, CountingWindow(2), session, GLOBAL WINDOW TRIGGER WHEN count(*)>=2) x all row sequences of length 1..L over the alphabet; the delivered (group key, id set) multiset must equal the reference grouping keyed by typed tuples; non-trivial = at least two expected groups/deliveries",
-		Bounds:      map[string]any{"max_len": map[string]int{"quick": 4, "thorough": 5}, "tuple_sets": len(c04Sets), "window_kinds": c04Kinds},
+		Bounds:      map[string]any{"max_len": map[string]int{"quick": 4, "thorough": 6}, "tuple_sets": len(c04Sets), "window_kinds": c04Kinds},
 		Assumptions: []string{"NULL and missing are never mixed in one column of one alphabet (the property treats them as one group)", "one value type per grouping column"},
 	}
 }
